@@ -35,16 +35,19 @@ def _worker(t):
         r['replays'] += 1
         a_il = tv.agree(p['il_predict'], nat)
         a_ref = tv.agree(p['ref_expect'], nat)
-        if p['kind'] in UB_KINDS:
-            # the IL the real compiler emitted contains the event; the native run is not required to show it
-            p['confirmed'] = 'il-evidence' if not a_ref or True else 'no'
-        elif a_il and not a_ref:
-            p['confirmed'] = 'native'
-            r['replays_ok'] += 1
-        elif a_ref:
-            p['confirmed'] = 'not-reproduced'
+        if nat.get('kind') in ('error', 'nobuild', 'timeout'):
+            p['confirmed'] = 'replay-failed'
+        elif not a_ref:
+            # the real executable departs from the reference semantics on the solver's input: genuine, whatever the
+            # exact value the encoding predicted (address-dependent results differ from run to run)
+            p['confirmed'] = 'native' if a_il else 'native-differs-from-both'
+            r['replays_ok'] += 1 if a_il else 0
+        elif p['kind'] in UB_KINDS:
+            # the IL the real compiler emitted contains the event (fall-off, out-of-region access, ill-typed IL);
+            # the native run happened to agree with the reference, which undefined behaviour is allowed to do
+            p['confirmed'] = 'il-evidence'
         else:
-            p['confirmed'] = 'native-differs-from-both'
+            p['confirmed'] = 'not-reproduced'
     return r
 
 
@@ -94,14 +97,14 @@ def run(prop, templates, level, assumptions, explanation, reject_is_violation=Tr
                               replay={'src': r.get('src'), 'out': r.get('compiler_out')})
         elif st == 'inconclusive':
             rep.inconc(t.id, r.get('reason'))
-        if r.get('witness_ok') is False:
+        if r.get('witness_ok') is False and not any(p.get('confirmed') in ('native', 'native-differs-from-both') for p in r['problems']):
             rep.inconc(t.id, 'encoder-mismatch on witness replay: inputs=%s il=%s native=%s' % (r.get('witness_inputs'), r.get('witness_il'), r.get('witness_native')))
         for p in r['problems']:
             if p['kind'] in ('unknown', 'bound'):
                 continue
             disagreements += 1
             conf = p.get('confirmed')
-            if conf in ('not-reproduced', 'native-differs-from-both'):
+            if conf in ('not-reproduced', 'replay-failed'):
                 rep.inconc(t.id, 'counterexample %s did not reproduce natively (%s): il=%s ref=%s native=%s' % (p.get('inputs'), conf, p.get('il_predict'), p.get('ref_expect'), p.get('native')))
                 continue
             if p.get('outside_regions', False) is None:
